@@ -244,6 +244,24 @@ def run_case(case, rng):
                                f"selector {sel!r}: {type(e).__name__}", **facts)
             return None
         compare(sel, got, label)
+        # the second entry point to indexing: get(selector, default) gives what [] gives for every resolvable selector
+        if rng.random() < 0.3:
+            try:
+                hash(sel) if not isinstance(sel, (list, slice)) else None
+                g_ = t.get(sel, "DEFAULT")
+            except TypeError:
+                g_ = None
+            except BaseException as e:
+                if isinstance(e, (KeyboardInterrupt, SystemExit, MemoryError)) or type(e).__name__ == "CaseTimeout":
+                    raise
+                case.fail(f"{label}:get-raises-for-a-key-[]-resolves", f"selector {sel!r}: {type(e).__name__}: {e}", **facts)
+                g_ = None
+            if g_ is not None:
+                case.count("get_compared_with_getitem")
+                if isinstance(g_, str):
+                    case.fail(f"{label}:get-gives-the-default-for-a-key-[]-resolves", f"selector {sel!r}", **facts)
+                else:
+                    compare(sel, g_, label + ":get")
         return got
 
     # ---- keys that EQUAL a label but have another type (1.0, numpy.int64(1), True for 1; numpy.str_ for str) -------------
